@@ -5,7 +5,7 @@
    empty statement, which the spelled lists of StStmtProofs do not cover); the unguarded statement is refuted by a witness. *)
 From Coq Require Import List Arith Lia Bool NArith.
 From Verif Require Import Base.Res Base.Text Gen.GenTokens Model.Lexer Model.Literals Model.ExprParser Model.StParser
-  Model.StInstance Proofs.StExprProofs Proofs.StStmtProofs Proofs.StInstanceProofs Model.StRender.
+  Model.StInstance Proofs.StExprProofs Proofs.StStmtProofs Proofs.StInstanceProofs Model.StRender Proofs.DecProofs.
 Import ListNotations.
 Close Scope N_scope.
 Open Scope nat_scope.
@@ -46,11 +46,9 @@ Section SexprInd.
 End SexprInd.
 
 (* ---- which trees the renderer writes back faithfully ---- *)
-Definition int_ok (v : N) : Prop := tok_class (int_tok v) = CConst CkInt /\ tok_num (int_tok v) = v.
-
 Definition leaf_ok (l : sleaf) : Prop :=
   match l with
-  | LfInt false v => int_ok v
+  | LfInt false v => (v < two128)%N      (* the range of the syntax tree's integers *)
   | LfInt true _ => False          (* written '- 5': the recorded gap *)
   | LfVar _ => False               (* no accepted text has this node *)
   | _ => True
@@ -153,7 +151,7 @@ Proof.
   induction e as [l|o l r IHl IHr|o x IHx|f ps IHps] using sexpr_ind2; intros He q.
   - (* leaves *)
     destruct l as [[|] v|b|c|n|n]; cbn [rexpr leaf_ok] in He; try contradiction; cbn [sp_of leaf_sp].
-    + destruct He as (Hc & Hn). split; [exact Hc|]. cbn. unfold leaf_of. rewrite Hn. reflexivity.
+    + destruct (int_tok_ok v He) as (Hc & Hn). split; [exact Hc|]. cbn. unfold leaf_of. rewrite Hn. reflexivity.
     + split; [|destruct b; reflexivity]. cbn. destruct b; repeat split; reflexivity.
     + split; [apply str_tok_class|]. cbn [StExprProofs.erase]. rewrite str_tok_leaf. reflexivity.
     + split; [|reflexivity]. split; [reflexivity | apply ws1_triv].
